@@ -29,6 +29,7 @@ type Spec struct {
 	TimeoutMs int               `json:"timeout_ms"` // per solver query
 	KnownOpen []string          `json:"known_open"`
 	Workers   int               `json:"workers"`
+	DeadlineS int               `json:"deadline_s"` // whole run: jobs still running then end as timeouts, later ones are not started
 	Jobs      []Job             `json:"jobs"`
 	BMC       []BMCJob          `json:"bmc"`
 }
@@ -117,6 +118,9 @@ func runJob(l *Loaded, spec *Spec, job Job) (res JobResult) {
 	if job.TimeoutS > 0 {
 		e.Deadline = time.Now().Add(time.Duration(job.TimeoutS) * time.Second)
 	}
+	if !runDeadline.IsZero() && (e.Deadline.IsZero() || runDeadline.Before(e.Deadline)) {
+		e.Deadline = runDeadline
+	}
 	fn := l.Main.Func(job.Func)
 	fill := func() {
 		res.RunS = time.Since(t1).Seconds()
@@ -162,6 +166,9 @@ func runJob(l *Loaded, spec *Spec, job Job) (res JobResult) {
 			}
 			if _, ok := r.(jobTimeout); ok {
 				res.Status, res.Error = "timeout", fmt.Sprintf("job exceeded %d s", job.TimeoutS)
+				if !runDeadline.IsZero() && !time.Now().Before(runDeadline) {
+					res.Error = "the run reached its wall-clock deadline"
+				}
 				return
 			}
 			res.Status, res.Error = "error", fmt.Sprint(r)
@@ -175,6 +182,9 @@ func runJob(l *Loaded, spec *Spec, job Job) (res JobResult) {
 	res.Status = "ok"
 	return
 }
+
+// runDeadline: end of the whole run (Spec.DeadlineS after start); zero = none
+var runDeadline time.Time
 
 func main() {
 	if pf := os.Getenv("VERIF_CPUPROFILE"); pf != "" { // debugging aid: CPU profile of the engine, stopped after VERIF_CPUPROFILE_S seconds (default 60)
@@ -282,6 +292,9 @@ func main() {
 	}
 
 	t0 := time.Now()
+	if spec.DeadlineS > 0 {
+		runDeadline = t0.Add(time.Duration(spec.DeadlineS) * time.Second)
+	}
 	l, err := Load(spec.Repo, spec.Pkg, spec.Harness, spec.Replace, spec.Aux)
 	if err != nil {
 		fmt.Fprintln(os.Stderr, "load:", err)
